@@ -1,7 +1,9 @@
 import TracklibVerif.Lemmas.TextIOGpx
-import TracklibVerif.Lemmas.TextIOAll
+import TracklibVerif.Lemmas.TextIOAll3
 import TracklibVerif.Lemmas.TextIOGpxAF
 import TracklibVerif.Lemmas.TextIOWktFile
+import TracklibVerif.Lemmas.TextIOSession
+import TracklibVerif.Lemmas.TextIOStrFmt
 /-! # C13 — tracks and networks written to file are read back unchanged
 
 Theorems about the model `TV.TextIO` (`Model/TextIO.lean`), which mirrors
@@ -288,12 +290,14 @@ theorem readFromCsv_dir_roundtrip (f : CsvFmt) (geo : Bool) (pf : List Tok) (h :
 and the feature columns `af_names = names` — values of any kind (`AFVal`: int, float on a decimal lattice, str, nan, ±inf)
 whose text is one field of the line (`AFOK`), names that are good fields, distinct and not refused by the track (`NameOK`),
 a separator that is not one of the letters of the column names `E N U X Y Z lon lat h time` — is read back by
-`readFromCsv(..., h=hr, read_all=True)`, for `hr` = 0, 1, 2 (in particular the matching calls `h = hr = 1` and `h = hr = 2`),
-as the same observations, the same feature names in the same order, and for every observation the values `expAF name v`
-(`read_all_values` says what they are). The names are those of the last header line (`#E;N;U;time;af0;…`), which the first
-pass reads as a comment line; the second pass reads the first line raw and the others stripped. (`hr = 3`, where the
-names line is consumed by the header loop with its newline, is covered by correspondence only; `h = 0` writes no names:
-the reader raises UnboundLocalError.) -/
+`readFromCsv(..., h=hr, read_all=True)`, for EVERY reader header count `hr` up to the three header lines written — `hr` = 0, 1,
+2, 3, in particular the matching calls `h = hr` — as the same observations, the same feature names in the same order, and for
+every observation the values `expAF name v` (`read_all_values` says what they are). For `hr ≤ 2` the names are those of the
+last header line (`#E;N;U;time;af0;…`), which the first pass reads as a comment line (stripped); the second pass reads the
+first line raw and the others stripped. For `hr = 3` the names line is consumed by the header loop RAW
+(`line[1:].split(sep)`: the last name carries the newline until the names are stripped), no comment line is left, and the
+second pass meets the first data line raw (its last field carries the newline until the value is stripped).
+(`h = 0` writes no names: the reader raises UnboundLocalError; `hr > 3` eats data lines.) -/
 theorem csv_read_all_roundtrip (f : CsvFmt) (geo : Bool) (pf : List Tok) (h naf : Nat) (rows : List (Row × List AFVal))
     (srid : Str) (names : List Str)
     (hv : ValidIds f) (hsep : numChar f.sep = false) (hnl : f.sep ≠ '\n') (hcol : f.sep ∉ colChars)
@@ -302,10 +306,22 @@ theorem csv_read_all_roundtrip (f : CsvFmt) (geo : Bool) (pf : List Tok) (h naf 
     (hpos : 0 < h) (hne : rows ≠ [])
     (hnames : ∀ n ∈ names, NameOK f.sep n) (hnd : names.Nodup) (hrl : ∀ ra ∈ rows, ra.2.length = names.length) :
     ∃ text, writeToFile f geo pf h naf rows srid names = .ok text ∧
-      ∀ hr, hr ≤ 2 → readCsvAll f pf hr text
+      ∀ hr, hr ≤ 3 → readCsvAll f pf hr text
         = .ok (rows.map (fun ra => expRow f geo pf ra.1), names,
                rows.map (fun ra => (names.zip ra.2).map (fun nv => expAF nv.1 nv.2))) :=
-  TV.TextIO.csv_read_all_roundtrip f geo pf h naf rows srid names hv hsep hnl hcol htime hrows hafs hsrid hpos hne hnames hnd hrl
+  TV.TextIO.csv_read_all_roundtrip3 f geo pf h naf rows srid names hv hsep hnl hcol htime hrows hafs hsrid hpos hne hnames hnd hrl
+
+/-- the hypotheses are satisfiable, and `hr = 3` is not vacuous: two observations, a time column, two feature columns
+(`speed`, and `k&` whose values stay texts), written with `h = 1` and read with `h = 3, read_all=True` -/
+example : ∃ text, writeToFile ⟨0, 1, -1, 2, ';'⟩ false (tokenize "2D/2M/4Y 2h:2m:2s".toList) 1 2
+      [(⟨⟨true, 1500⟩, ⟨false, 2250⟩, ⟨false, 0⟩, ⟨⟨2024, 2, 29, 23, 59, 59⟩, 0⟩⟩, [.dec 1 25, .int 7]),
+       (⟨⟨false, 0⟩, ⟨false, 1⟩, ⟨false, 0⟩, ⟨⟨2000, 1, 1, 0, 0, 0⟩, 0⟩⟩, [.nan, .str "a b".toList])]
+      "ENU".toList ["speed".toList, "k&".toList] = .ok text ∧
+    text = "#srid: ENU\n#ref point: None\n#E;N;time;speed;k&\n-1.500;2.250;29/02/2024 23:59:59;2.5;7\n0.000;0.001;01/01/2000 00:00:00;nan;a b\n".toList ∧
+    (readCsvAll ⟨0, 1, -1, 2, ';'⟩ (tokenize "2D/2M/4Y 2h:2m:2s".toList) 3 text).toOption
+      = some ([⟨(-1500, 3), (2250, 3), (0, 0), ⟨⟨2024, 2, 29, 23, 59, 59⟩, 0⟩⟩, ⟨(0, 3), (1, 3), (0, 0), ⟨⟨2000, 1, 1, 0, 0, 0⟩, 0⟩⟩],
+              ["speed".toList, "k&".toList], [[.num (25, 1), .str "7".toList], [.nan, .str "a b".toList]]) := by
+  refine ⟨_, rfl, ?_, ?_⟩ <;> decide +kernel
 
 /-- `read_all_values`: what `expAF` is. In a column whose name does not end in `&`: an `int` comes back as the float of the
 same value; a float `n / 10^d` of ANY magnitude as the decimal `str()` printed — positionally or, below `1e-4` and from `1e16`,
@@ -669,5 +685,92 @@ example : netRow ',' 3 ⟨"e1".toList, "a".toList, "b".toList, -1, [(0, 0), (150
 example : SepOK ';' ∧ SepOK ' ' ∧ ¬ SepOK '-' := by unfold SepOK; decide
 example : EdgeOK ',' ⟨"e1".toList, "a".toList, "b".toList, -1, [(0, 0), (1500, -2250)]⟩ := by
   unfold EdgeOK IdOK; decide
+
+/-! ### sessions: the hidden class-level state of `ObsTime` as part of the model state (`Model/TextIOSession.lean`)
+
+`TState` = (`__READ_FMT`, `__PRINT_FMT`, the memo table `__PRECOMPILED_READ_FMT`); `step` = one operation of a session on it
+(`setReadFormat` / `setPrintFormat` by the user, `str`, `readTimestamp`, `timeWithZone`, `writeToGpx`, `writeToFile` +
+`readFromCsv`); `readTimestampS` reads through the memo table of the state, `Reachable` = any history from the class body. -/
+
+/-- **`session_state_invariant`**: in every state a session can reach from the class body — any history of format changes by
+the user and of library calls — the memo table `__PRECOMPILED_READ_FMT` is the precompiled form of the CURRENT read format
+(the literal list of the class body is the precompiled default format), so `readTimestamp` in that state is `readTimestamp`
+with the read format in force: what was read or set earlier does not matter. -/
+theorem session_state_invariant (st : TState) (h : Reachable st) :
+    st.pre = precompile (tokenize st.readFmt) ∧ ∀ s, readTimestampS st s = readTimestamp (tokenize st.readFmt) s :=
+  ⟨reachable_inv st h, readTimestampS_eq st (reachable_inv st h)⟩
+
+/-- **`session_no_state_left`**: no library call of a session leaves the class-level state changed — `str`, `readTimestamp`,
+`timeWithZone` and `writeToGpx` (print format set to ISO and put back), `writeToFile` + `readFromCsv` (read format saved, set to
+the TrackFormat's copy of it, put back; when the reader raises before putting it back, the format left in force is the same
+one) — and any sequence of them leaves it as found. Only the user's `setReadFormat` / `setPrintFormat` move it. -/
+theorem session_no_state_left (st : TState) (h : Reachable st) (last : Str) :
+    (∀ op, isUser op = false → (step st last op).1 = st) ∧
+    (∀ ops, (∀ op ∈ ops, isUser op = false) → run st last ops = st) :=
+  ⟨fun op hop => library_call_leaves_no_state st last op (reachable_inv st h) hop,
+   fun ops hops => run_library_calls st last ops (reachable_inv st h) hops⟩
+
+/-- **`session_time_roundtrip`**: under ANY history of earlier format changes and library calls that leaves the read and the
+print format equal (and lossless) at the time of the pair, `str(t)` followed — after any further library calls `mid` — by
+`readTimestamp` of that text gives back the fields the format names. -/
+theorem session_time_roundtrip (st : TState) (hst : Reachable st) (heq : st.readFmt = st.printFmt)
+    (hl : Lossless (tokenize st.readFmt)) (t : Stamp) (ht : Fits t)
+    (mid : List SOp) (hmid : ∀ op ∈ mid, isUser op = false) (last : Str) :
+    (step st last (.print t)).2 = .text (printTime (tokenize st.readFmt) t) ∧
+    (step (run st (printTime (tokenize st.readFmt) t) mid) last (.read (printTime (tokenize st.readFmt) t))).2
+      = .stamp (some (project (tokenize st.readFmt) t)) :=
+  TV.TextIO.session_time_roundtrip st hst heq hl t ht mid hmid last
+
+/-- **`session_csv_roundtrip`**: `writeToFile` then `readFromCsv` as one operation of a session: in every reachable state whose
+two formats are equal, under the hypotheses of `csv_file_roundtrip` for that format, every observation comes back (the reader
+going through the memo table of the state) and the state is left as found. -/
+theorem session_csv_roundtrip (st : TState) (hst : Reachable st) (heq : st.readFmt = st.printFmt)
+    (f : CsvFmt) (geo : Bool) (h hr : Nat) (srid : Str) (rows : List Row)
+    (hv : ValidIds f) (hsep : numChar f.sep = false) (hnl : f.sep ≠ '\n')
+    (htime : f.idT ≠ -1 → TimeOK (tokenize st.printFmt) f.sep)
+    (hrows : ∀ r ∈ rows, RowOK f geo (tokenize st.printFmt) r) (hsrid : '\n' ∉ srid)
+    (hhr : hr ≤ (if h = 0 then 0 else 3)) (last : Str) :
+    ∃ text, step st last (.csv f geo h hr srid rows)
+      = (st, .csv (.ok text) (.ok (rows.map (expRow f geo (tokenize st.printFmt))))) :=
+  TV.TextIO.session_csv_roundtrip st hst heq f geo h hr srid rows hv hsep hnl htime hrows hsrid hhr last
+
+/-- a history: the user reads a text under day/month, switches both formats to month/day (a twin format), calls `timeWithZone`
+and `writeToGpx`; the state reached has equal formats, its memo table is the one of month/day, and the pair `str` /
+`readTimestamp` round-trips there: 3 April stays 3 April, while the text read FIRST under day/month meant 4 March -/
+example :
+    let hist : List SOp := [.read "03/04/2021 10:00:00".toList, .setRead "2M/2D/4Y 2h:2m:2s".toList, .setPrint "2M/2D/4Y 2h:2m:2s".toList,
+      .tz ⟨⟨2021, 4, 3, 10, 0, 0⟩, 0⟩, .gpxw "t".toList []]
+    let st := run TState.init [] hist
+    st.readFmt = st.printFmt ∧ st.pre = [((2, 'M'), 0), ((2, 'D'), 3), ((4, 'Y'), 6), ((2, 'h'), 11), ((2, 'm'), 14), ((2, 's'), 17)] ∧
+    (runOuts TState.init [] hist).map (·.1) ≠ [] ∧
+    (runOuts st [] [.print ⟨⟨2021, 4, 3, 10, 0, 0⟩, 0⟩, .readLast]).map (fun x => match x.1 with | .stamp t => t | _ => none)
+      = [none, some ⟨⟨2021, 4, 3, 10, 0, 0⟩, 0⟩] := by
+  decide +kernel
+
+/-! ### the string-level algorithms of `ObsTime.__str__` / `__precompileReadFmt` (`Lemmas/TextIOStrFmt.lean`) -/
+
+/-- **`str_string_level`**: `ObsTime.__str__` works on the format STRING — for every code of `__codes` in turn, `find` the code
+and splice the zero-padded field over its two characters until it is found no more (`strAlgo`: `find2` = `str.find` of a
+two-character string, `splice2` = `chaine[:id] + new + chaine[id+2:]`). For every format whose literal characters are not code
+letters (`LitsOK`: no `D M Y h m s z` outside the codes; digits, punctuation, blanks, `T`, `Z`, … are fine; no backslash, for
+which `__str__` has a further loop) this gives exactly the text of the token-level model `printTime (tokenize fmt)` — the
+inserted digits never make up a new code with what follows. All theorems about `printTime` therefore speak of the string
+algorithm. -/
+theorem str_string_level (fmt : Str) (h : LitsOK fmt) (t : Stamp) : strAlgo fmt t = printTime (tokenize fmt) t :=
+  strAlgo_eq fmt h t
+
+/-- **`precompile_string_level`**: the same for `__precompileReadFmt` (formats without `*`): `format.find(code)` for every code,
+sorted by position and shifted, is the token-level `precompile`. -/
+theorem precompile_string_level (fmt : Str) (h : LitsOK fmt) : precompileStr fmt = precompile (tokenize fmt) :=
+  precompileStr_eq fmt h
+
+/-- the formats of the streams satisfy the hypothesis; and it is needed: with the literal `D` after the code, the digits `12`
+printed for day 12 make up a new `2D` with it — the string algorithm prints `112`, the tokens say `12D` -/
+example : LitsOK "2D/2M/4Y 2h:2m:2s".toList ∧ LitsOK "4Y-2M-2DT2h:2m:2s.3zZ".toList ∧ LitsOK "4Y2M2D2h2m2s".toList
+    ∧ LitsOK "[4Y] (2M) {2D}".toList ∧ LitsOK "1D/1M/4Y 1h:1m:1s".toList :=
+  ⟨litsOK_of_b _ (by decide), litsOK_of_b _ (by decide), litsOK_of_b _ (by decide), litsOK_of_b _ (by decide), litsOK_of_b _ (by decide)⟩
+example : strAlgo "2D/2M/4Y 2h:2m:2s".toList ⟨⟨2024, 2, 29, 23, 59, 59⟩, 0⟩ = "29/02/2024 23:59:59".toList := by decide +kernel
+example : strAlgo "2DD".toList ⟨⟨2024, 2, 12, 0, 0, 0⟩, 0⟩ = "112".toList
+    ∧ printTime (tokenize "2DD".toList) ⟨⟨2024, 2, 12, 0, 0, 0⟩, 0⟩ = "12D".toList := by decide +kernel
 
 end TV.C13
